@@ -306,3 +306,34 @@ package core
 //@ func IsTimeoutError
 //@   nopanic
 //@   havoc
+
+// Process: the innermost IO handler. Nothing it runs (decoding the request, the invoke plugin
+// chain, the published function) can leave it as a panic: it is turned into an error for this call.
+//@ iface ServiceCodec.Decode(self, request, context) (name, args, err)
+//@   havoc
+//@   modifies ghost.decoded
+//@   ensures ghost.decoded == old(ghost.decoded) + 1
+//@   ensures_panic ghost.decoded == old(ghost.decoded) + 1
+//@ iface ServiceCodec.Encode(self, result, context) (response, err)
+//@   nopanic
+//@   havoc
+//@   modifies ghost.encoded, ghost.encoded_is_error
+//@   ensures ghost.encoded == old(ghost.encoded) + 1
+//@ ghost decoded int
+//@ ghost encoded int
+//@ ghost encoded_is_error int
+//@ iface PluginManager.Handler(self) (h)
+//@   nopanic
+//@   ensures h != nil
+
+//@ func (*Service).Process
+//@   prop C11 C08
+//@   nopanic
+//@   havoc
+//@   modifies ghost.decoded, ghost.encoded, ghost.encoded_is_error, @NEXT_INVOKE
+//@   requires s != nil
+//@   ensures [decodes_once] ghost.decoded == old(ghost.decoded) + 1
+//@   ensures [invokes_at_most_once] ghost.fwd <= old(ghost.fwd) + 1
+//@   ensures [error_or_panic_is_never_a_success] ghost.fwd == old(ghost.fwd) + 1 && (ghost.npanic > old(ghost.npanic) || ghost.ret_err != nil) ==>
+//@       result1 != nil && result0 == nil && ghost.encoded == old(ghost.encoded)
+//@   ensures [undecodable_is_an_error] ghost.fwd == old(ghost.fwd) ==> result1 != nil && result0 == nil
